@@ -66,7 +66,9 @@ Reset == /\ Ev("Reset")
 ResetShape == /\ \A d \in Docs : DOMAIN tree'[d] = {} /\ cur'[d] = 0
               /\ blob' = {}
 
-PendOf(r) == [a |-> "pend", d |-> r.d, k |-> r.k, r |-> r.r, p |-> r.p, s |-> SpecOf(r.s), h |-> HOf(r)]
+PendOf(r) == [a |-> "pend", d |-> r.d, k |-> r.k, r |-> r.r, p |-> r.p, s |-> SpecOf(r.s), h |-> HOf(r), mp |-> Par(r.d, r.k, r.p)]
+(* the parent the step really uses: the End of a bracket re-uses the matchRev captured by the first attempt *)
+EPr(r) == IF r.a = "E" /\ pend # None THEN EP(pend) ELSE r.p
 Keep == UNCHANGED <<conf, hist, bi, diverged>>
 
 (* ---- pass P ---- *)
@@ -107,9 +109,9 @@ TreeStep(d, k, r, p) ==
   /\ \A x \in DOMAIN nt \ {r} : nt[x].d = ot[x].d
 CCommit(r) ==
   LET d == r.d  s == SpecOf(r.s) IN
-  /\ TreeStep(d, r.k, r.r, r.p)
+  /\ TreeStep(d, r.k, r.r, EPr(r))
   /\ DOMAIN tree'[d] \subseteq DOMAIN gen \cup {r.r}
-  /\ ImplCommit(d, r.k, r.r, r.p, s, HOf(r), tree'[d], cur'[d], tainted')
+  /\ ImplCommit(d, r.k, r.r, EPr(r), s, HOf(r), tree'[d], cur'[d], tainted')
   /\ cur'[d] \in WinnersOf(tree'[d], gen', cls')
 Same(D) == /\ \A d \in D : tree'[d] = tree[d] /\ cur'[d] = cur[d] /\ atts'[d] = atts[d]
 CRefused == /\ Same(Docs \ tainted)
@@ -118,7 +120,7 @@ CKeep == UNCHANGED <<conf, hist, bi, diverged>>
 CReset == Reset /\ ResetShape
 CW == /\ ~diverged /\ Ev("W") /\ Logged /\ GhostCommit(R.d, R.k, R.r, R.p, SpecOf(R.s), R.ok)
       /\ (pend # None => inner < MaxInner)
-      /\ (R.d \in tainted \/ (Legal(R.d, R.k, R.p, SpecOf(R.s)) = R.ok))
+      /\ (R.d \in tainted' \/ (Legal(R.d, R.k, R.p, SpecOf(R.s)) = R.ok))
       /\ IF R.ok THEN CCommit(R) ELSE CRefused
       /\ nr' = R.r /\ inner' = (IF pend = None THEN 0 ELSE inner + 1) /\ UNCHANGED pend /\ CKeep
 CB == /\ ~diverged /\ Ev("B") /\ Logged /\ GhostIdle /\ pend = None
@@ -130,12 +132,23 @@ CT == /\ ~diverged /\ Ev("T") /\ Logged /\ GhostIdle /\ pend # None
       /\ Same(Docs \ tainted)
       /\ {b \in blob' : b[1] \notin tainted} = {b \in blob : b[1] \notin tainted}
       /\ inner' = inner + 1 /\ UNCHANGED <<gen, cls, nr, pend, old>> /\ CKeep
-CE == /\ ~diverged /\ Ev("E") /\ Logged /\ GhostCommit(R.d, R.k, R.r, R.p, SpecOf(R.s), R.ok) /\ pend # None /\ pend = PendOf(R)
-      /\ (R.d \in tainted \/ (Legal(R.d, R.k, R.p, SpecOf(R.s)) = R.ok))
+CE == /\ ~diverged /\ Ev("E") /\ Logged /\ GhostCommit(R.d, R.k, R.r, R.p, SpecOf(R.s), R.ok) /\ pend # None
+      /\ [pend EXCEPT !.mp = 0] = [PendOf(R) EXCEPT !.mp = 0]
+      /\ (R.d \in tainted' \/ (Legal(R.d, R.k, EPr(R), SpecOf(R.s)) = R.ok))
       /\ IF R.ok THEN CCommit(R) ELSE CRefused
       /\ pend' = None /\ inner' = 0 /\ UNCHANGED nr /\ CKeep
 CAny == CW \/ CB \/ CT \/ CE
+(* diagnosis of a line that no action explains: which part of the write step is not satisfiable (printed as <<"CWHY", behaviour, line, ...>>) *)
+DBase == l <= TraceLen /\ R.a \in {"W", "E"} /\ Logged /\ GhostCommit(R.d, R.k, R.r, R.p, SpecOf(R.s), R.ok)
+Why == [base   |-> ENABLED DBase,
+        legal  |-> (R.a \in {"W", "E"}) => (Legal(R.d, R.k, EPr(R), SpecOf(R.s)) = R.ok),
+        tree   |-> ENABLED (DBase /\ (IF R.ok THEN TreeStep(R.d, R.k, R.r, EPr(R)) ELSE CRefused)),
+        commit |-> ENABLED (DBase /\ R.ok /\ ImplCommit(R.d, R.k, R.r, EPr(R), SpecOf(R.s), HOf(R), tree'[R.d], cur'[R.d], tainted')),
+        winner |-> ENABLED (DBase /\ R.ok /\ gen' = Ov(gen, R.r :> GenOf(Par(R.d, R.k, EPr(R))) + 1) /\ cls' = Ov(cls, R.r :> ClsOf(R.k, HOf(R)))
+                            /\ cur'[R.d] \in WinnersOf(tree'[R.d], gen', cls')),
+        pend   |-> IF R.a = "E" THEN pend = PendOf(R) ELSE TRUE]
 CDiverge == /\ ~diverged /\ l <= TraceLen /\ R.a # "Reset" /\ ~ENABLED CAny
+            /\ PrintT(<<"CWHY", bi, l, IF R.a \in {"W", "E"} THEN Why ELSE R.a>>)
             /\ diverged' = TRUE /\ l' = l + 1 /\ UNCHANGED <<vars, bi>>
 CSkip == /\ diverged /\ l <= TraceLen /\ R.a # "Reset" /\ l' = l + 1 /\ UNCHANGED <<vars, bi, diverged>>
 CNext == CReset \/ CAny \/ CDiverge \/ CSkip
